@@ -588,6 +588,9 @@ func (x *Explorer) next() bool {
 
 // tstore writes *addr = v, remembering the old value when the trail is on.
 func tstore(addr *value, v value) {
+	if Sched != nil {
+		logAccess(addr, true, false)
+	}
 	if X != nil && X.trailOn {
 		X.trail = append(X.trail, trailEntry{addr: addr, old: *addr})
 	}
@@ -702,7 +705,12 @@ func (x *Explorer) Explore(check func()) {
 
 func (x *Explorer) runOne(check func()) (why string) {
 	defer func() {
-		if r := recover(); r != nil {
+		r := recover()
+		if Sched != nil {
+			Sched.teardown()
+			Sched = nil
+		}
+		if r != nil {
 			switch r := r.(type) {
 			case pathAbort:
 				why = r.why
